@@ -153,7 +153,7 @@ Fixpoint sub_val (t : ty) (mv : tval) {struct t} : outcome (tval * bool * bool) 
             let '(nv, s, ad) := r in
             if negb s then Ok (mv, false, false)
             else (px <- set_into e nv ;; Ok ((t, VPtr px), true, false))   (* reflect.New(t.Elem()); Set *)
-        | _ => Panic 250
+        | _ => Ok (mv, false, false)   (* not the kind Mangle produced: left alone (fix: commit) *)
         end
   | TMap kt vt _ =>
       generic_pre
@@ -171,7 +171,7 @@ Fixpoint sub_val (t : ty) (mv : tval) {struct t} : outcome (tval * bool * bool) 
                         Ok ((kx, vx) :: r')
                     end) kvs ;;
             Ok ((t, VMap l), true, false)
-        | _ => Panic 250
+        | _ => Ok (mv, false, false)
         end
   | TArray _ et | TSlice et _ =>
       generic_pre
@@ -187,7 +187,7 @@ Fixpoint sub_val (t : ty) (mv : tval) {struct t} : outcome (tval * bool * bool) 
                          Ok (xx :: r')
                      end) l ;;
             Ok ((t, VList l'), true, match t with TArray _ _ => true | _ => false end)
-        | _ => Panic 250
+        | _ => Ok (mv, false, false)
         end
   | _ => generic_pre (Ok (mv, false, false))
   end.
